@@ -10,6 +10,12 @@
     (equal to [e], one 64-bit ulp away from it, an infinity or a zero when [e] is
     outside the binary64 range) and against each other.
 
+    A second kind of case, [Trace], is a straight-line program over the crate's operations (by-value and
+    assigning operators, [neg], [abs], [min], [max], the round trip through binary64) on registers that start
+    with [x], [y]: every step records the raw result, [f64::from] of it and the relation code of its operand pair.
+    Operands of those steps are arbitrary extended-format values (differences, products and quotients of extended
+    values, results of [neg]/[min]/[max]/[abs], f80 overflows to infinity, f80 denormals).
+
     [model_check]: the observation equals what the model computes (NaNs as a class).
     [spec_check]:  the observation satisfies the property, decided by exact
     integer/rational arithmetic on the decoded operands — no [SFadd]/[SFmul]/…
